@@ -175,9 +175,12 @@ func (i Branch) String() string {
 }
 
 func (i Branch) adjust(offset int, state *GenState) SearchInstruction {
+	// the receiver shares its slice with the stored pattern: relocate a copy
+	branches := make([]int, len(i.Branches))
 	for idx := range i.Branches {
-		i.Branches[idx] += offset
+		branches[idx] = i.Branches[idx] + offset
 	}
+	i.Branches = branches
 	return i
 }
 
